@@ -5,6 +5,7 @@ package harness
 import (
 	"fmt"
 	"os"
+	"path/filepath"
 	"strings"
 	"time"
 
@@ -215,6 +216,7 @@ func init() {
 			}
 			defer os.RemoveAll(dir)
 			for name, content := range c.Files {
+				os.MkdirAll(filepath.Dir(dir+"/"+name), 0o755)
 				if err := os.WriteFile(dir+"/"+name, []byte(content), 0o644); err != nil {
 					return "", "", err
 				}
